@@ -36,6 +36,8 @@ Definition val_ok (f : tfield) (v : tval) : Prop :=
   | FTag, VBytes b => b <> [] /\ zlen b <= 255 /\ forallb is_alnum b = true
   | FBitmap, VWindows ws => canon_from (-1) ws /\ no_type0 ws
   | FB32, VBytes b => all_bytes b = true /\ b <> [] /\ zlen b <= 255
+  | FEnum k, VInt z => 0 <= z <= enum_max k
+  | FNsap, VBytes b => all_bytes b = true
   | _, _ => False
   end.
 
@@ -174,7 +176,7 @@ Lemma field_ok sty c f v ftext v' R q bl :
         (is_rest f = true -> exists te, ungot st_end = Some te /\ is_eol_or_eof te = true).
 Proof.
   intros (Hhs & Hbs & HO) Hv Hp He Hbl HR1 HR2.
-  destruct f as [maxv| |tokmax ctormax ne| | |sc| |v6| | | | |]; destruct v as [z|b|n|l|ws]; cbn [val_ok] in Hv; try contradiction;
+  destruct f as [maxv| |tokmax ctormax ne| | |sc| |v6| | | | | |k|]; destruct v as [z|b|n|l|ws]; cbn [val_ok] in Hv; try contradiction;
     cbn [print_field] in Hp; cbn [expect] in He; cbn [is_rest] in HR1, HR2.
   - (* FDec *)
     inversion Hp; subst ftext. inversion He; subst v'. specialize (HR1 eq_refl).
@@ -411,6 +413,34 @@ Proof.
       change (tIDENT =? tIDENT) with true. change (0 =? 0) with true. cbn [orb negb andb bind fst snd].
       rewrite b32hex_roundtrip by exact Hb. reflexivity.
     + cbn [ctor_field]. replace (zlen b >? 255) with false by lia. reflexivity.
+  - (* FEnum *)
+    inversion He; subst v'. specialize (HR1 eq_refl).
+    destruct (enum_facts k z Hv) as (w & Ew & Hne & Hs & Epar & Ector).
+    rewrite Ew in Hp. inversion Hp; subst ftext.
+    exists (mkTok tIDENT w (has_bs w) None), (stq false R).
+    split; [apply get0_word_q; auto using units_safe|]. split; [reflexivity|]. split.
+    { unfold tok_plain, is_identifier. cbn [ttype tvalue]. rewrite safe_word_not_hash by exact Hs. repeat split; reflexivity. }
+    split; [apply stq_len_word|].
+    intros stX HX _. exists (VInt z), (stq false R).
+    split; [|split; [|split; [intros _; exists false; reflexivity|discriminate]]].
+    + cbn [parse_field]. unfold get_string, get_unescaped. rewrite HX. cbn [bind fst snd]. unfold unescape. cbn [tesc].
+      rewrite has_bs_safe by exact Hs. cbn [negb bind fst snd]. unfold as_string, is_identifier, is_quoted. cbn [ttype tvalue].
+      change (tIDENT =? tIDENT) with true. change (0 =? 0) with true. cbn [orb negb andb bind fst snd].
+      rewrite Epar. reflexivity.
+    + cbn [ctor_field]. rewrite Ector. reflexivity.
+  - (* FNsap *)
+    inversion Hp; subst ftext. inversion He; subst v'. specialize (HR1 eq_refl).
+    destruct (nsap_roundtrip b Hv) as [Ert Hs].
+    exists (mkTok tIDENT ([48; 120] ++ hexlify b) (has_bs ([48; 120] ++ hexlify b)) None), (stq false R).
+    split; [apply get0_word_q; auto using units_safe; discriminate|]. split; [reflexivity|]. split.
+    { unfold tok_plain, is_identifier. cbn [ttype tvalue]. rewrite safe_word_not_hash by exact Hs. repeat split; reflexivity. }
+    split; [apply stq_len_word|].
+    intros stX HX _. exists (VBytes b), (stq false R).
+    split; [|split; [reflexivity|split; [intros _; exists false; reflexivity|discriminate]]].
+    cbn [parse_field]. unfold get_string, get_unescaped. rewrite HX. cbn [bind fst snd]. unfold unescape. cbn [tesc].
+    rewrite has_bs_safe by exact Hs. cbn [negb bind fst snd]. unfold as_string, is_identifier, is_quoted. cbn [ttype tvalue].
+    change (tIDENT =? tIDENT) with true. change (0 =? 0) with true. cbn [orb negb andb bind fst snd].
+    rewrite Ert. reflexivity.
 Qed.
 
 (* ---------- the whole field list ---------- *)
